@@ -229,6 +229,15 @@ inductive State where
   /-- `RoiSubsetStateNd` whose attributes are the pixel attributes along `axes`: `roi` is
   `roi.contains` on the tuple of pixel coordinates. -/
   | roiPix (axes : List Nat) (roi : List Nat → Bool)
+  /-- `RoiSubsetStateNd` on pixel attributes whose test goes through `iterate_chunks` (a `pretransform`,
+  or `Projected3dROI.contains3d`).  Known finding `C04h`: `iterate_chunks(())` raises on a 0-d result
+  (a view that selects a single element). -/
+  | roiChunked (axes : List Nat) (roi : List Nat → Bool)
+  /-- `CategoricalROISubsetState2D` / `CategoricalMultiRangeSubsetState` on a 1-d dataset: a Python loop
+  `for i in range(len(values))` over `data[att, view]`; `f` as for `table`.  Known finding `C04i`: a
+  view that selects a single element makes `len()` / indexing raise (`indexErr`: `IndexError`, else
+  `TypeError`). -/
+  | loop1d (indexErr : Bool) (f : List Nat → Bool)
   /-- `SliceSubsetState(data, slices)` (entries padded to `ndim`; integer entries occur in
   `IndexedData._indices_subset_state`). -/
   | sliceSt (slices : List ViewItem)
@@ -422,6 +431,26 @@ def mask (sh : List Nat) : State → View → Except ViewErr (NArr Bool)
     | _, .error e => .error e
   | .table f, v => gather sh f v
   | .roiPix axes roi, v => roiPix sh axes roi v
+  | .roiChunked axes roi, v =>
+    match viewPoints sh v with
+    | .error e => .error e
+    | .ok (shape, _) =>
+      if shape.isEmpty then .error .indexError          -- `iterate_chunks(())` raises IndexError
+      else roiPix sh axes roi v
+  | .loop1d indexErr f, v =>
+    match viewPoints sh v with
+    | .error e => .error e
+    | .ok (shape, pts) =>
+      match shape with
+      | [] =>
+        -- the "array" is a bare label: `len()` of a float raises (`indexErr = false`); `len()` of a
+        -- string is its length, the loop runs, and `mask[0] = True` on the 0-d mask raises only if the
+        -- element is selected (`indexErr = true`)
+        if indexErr then (if pts.any f then .error .indexError else .ok ⟨[], pts.map f⟩) else .error .domain
+      | [_] => .ok ⟨shape, pts.map f⟩
+      | n :: _ :: _ =>
+        -- `labels[i]` is a row: unhashable (TypeError) as soon as there is a row
+        if n = 0 then .ok ⟨shape, pts.map f⟩ else .error .domain
   | .sliceSt sls, v => sliceMask sh sls v
   | .unrelated, v => gather sh (fun _ => false) v
   | .maskSame m, v => (NArr.mk sh m).index (noneToSlice v)
@@ -443,6 +472,27 @@ def mask (sh : List Nat) : State → View → Except ViewErr (NArr Bool)
   | .inv a, v => emap (NArr.map (!·)) (mask sh a v)
 
 end Impl
+
+/-- The decidable hypothesis of the partial theorems: the view does not hit one of the two listed
+loud failures (`C04h`, `C04i`) of a leaf of the selection. -/
+def State.quiet (sh : List Nat) (v : View) : State → Bool
+  | .roiChunked _ _ =>
+    match viewPoints sh v with
+    | .ok (shape, _) => !shape.isEmpty
+    | .error _ => true
+  | .loop1d indexErr f =>
+    match viewPoints sh v with
+    | .ok (shape, pts) =>
+      match shape with
+      | [] => indexErr && !pts.any f
+      | [_] => true
+      | n :: _ :: _ => n == 0
+    | .error _ => true
+  | .and a b => a.quiet sh v && b.quiet sh v
+  | .or a b => a.quiet sh v && b.quiet sh v
+  | .xor a b => a.quiet sh v && b.quiet sh v
+  | .inv a => a.quiet sh v
+  | _ => true
 
 /-! ## `IndexedData` -/
 
